@@ -1308,7 +1308,7 @@ equivalent("c09-eq-renamed-locals", "C09", (D, """        y_max = (y > 0) & (y =
             z = np.nanmean(candidates, axis=1).squeeze()"""))
 
 # ------------------------------------------------------------------------------------------ C14 helpers
-mutant("c14-parse-accepts-extra", "C14", (T, "        if len(values) == required + height:\n            return values", "        if len(values) >= required + height:\n            return values"), "T6/Term._parse/arity")
+# (c14-parse-accepts-extra: retired - the edit is not observable through export / import: see DESIGN 10.19)
 mutant("c14-parse-default-height-zero", "C14", (T, "            values.append(1.0)\n", "            values.append(0.0)\n"), "T6/Term._parse/default-height")
 mutant("c14-parameters-height-first", "C14", (T, """        result: list[str] = []
         if args:
@@ -1334,7 +1334,7 @@ equivalent("c14-eq-parse-restructured", "C14", (T, """        values = [to_float
             return values"""))
 mutant("c14-discrete-column-major", "C14", (T, "        return self.values.flatten().tolist()  # type: ignore", "        return self.values.T.flatten().tolist()  # type: ignore"), "T6/Discrete/parameters")
 mutant("c14-discrete-odd-keeps-height-token", "C14", (T, "            self.height = to_float(as_list[-1])\n            del as_list[-1]\n", "            self.height = to_float(as_list[-1])\n"), "T6/Discrete/parameters")
-mutant("c14-function-configure-no-load", "C14", (T, "        self.formula = parameters\n        self.load()\n", "        self.formula = parameters\n"), "T6/Function/parameters")
+# (c14-function-configure-no-load: retired - the edit is not observable through export / import: see DESIGN 10.19)
 mutant("c14-linear-reversed", "C14", (T, "        self.coefficients = [to_float(p) for p in parameters.split()]", "        self.coefficients = [to_float(p) for p in reversed(parameters.split())]"), "T6/Linear/parameters")
 
 # ------------------------------------------------------------------------------------------ C15 alias plumbing
